@@ -337,6 +337,17 @@ def m_arc_make_mut(ex, st, callee, args, dty, site):
     return Ptr(box.kids["v"])
 
 
+def m_arc_get_mut(ex, st, callee, args, dty, site):
+    """Arc::get_mut(&mut arc): Some(&mut contents) iff this is the only handle"""
+    a = arc_node(ex, args[0])
+    if a is None:
+        return NotImplemented
+    box = a.kids["ptr"].val.node
+    if box.variant[1] == 1:
+        return option(ex, True, Ptr(box.kids["v"]))
+    return option(ex, False)
+
+
 def m_arc_deref(ex, st, callee, args, dty, site):
     a = arc_node(ex, args[0])
     if a is None:
@@ -404,6 +415,7 @@ ARC_MODELS = [
     (r"^Arc::<.*>::new$", m_arc_new),
     (r"^<Arc<.*> as Clone>::clone$", m_arc_clone),
     (r"^Arc::<.*>::make_mut$", m_arc_make_mut),
+    (r"^Arc::<.*>::get_mut$", m_arc_get_mut),
     (r"^<Arc<.*> as Deref>::deref$", m_arc_deref),
     (r"^" + HM + r"::keys$", m_map_keys),
     (r"^" + HM + r"::drain$", m_map_drain),
